@@ -1,13 +1,29 @@
 """C20 — opening and verifying untrusted bytes is total and memory-safe."""
+from absint import Prover, analyse, Linearizer
+from lin import Lin, entails
+from sym import fmt, walk
+import stdmodel as SM
+
 LEVEL = 'proof'
 NEED_FIXTURE = True
 ROLES = ['lib']
 EXPLANATION = ('R20.1: HIR scan of the library crate for user-written unsafe blocks / unsafe fns / unsafe impls (0 expected; '
                'controls: the fixture crate and fst-bin must show theirs). R20.2/R20.3: every panic source (MIR Assert, slice '
-               'indexing, unwrap/expect, explicit panics) reachable from Fst::new, Fst::verify and the metadata accessors is '
-               'enumerated over all CFG paths and discharged by linear reasoning (Fourier-Motzkin) under the dominating guards.')
-TRUSTED = ['std slice indexing / try_into / unwrap panic conditions (stdmodel)', 'AsRef<[u8]> returns the same slice on every call', '64-bit target']
-ASSUMPTIONS = ['AsRef<[u8]>::as_ref of the container is pure', 'target_pointer_width = 64']
+               'indexing, unwrap/expect, explicit panics) reachable from the open entry points, verify() and the metadata '
+               'accessors is enumerated over all CFG paths (loop-carried values havocked) and discharged by linear arithmetic '
+               '(Fourier-Motzkin) under the dominating guards; verify() additionally uses the type invariant '
+               '"checksum stored => length >= K", where K is derived from the constructor on this run and the constructor is '
+               'shown to be the only place the FST type is built.')
+TRUSTED = ['std panic conditions of slice indexing / try_into / unwrap (engine/py/stdmodel.py)',
+           'external std callees not on the panicking list are total (listed in coverage.assumed_total_callees)']
+ASSUMPTIONS = ['AsRef<[u8]>::as_ref of the container is pure and returns the same slice on every call', 'target_pointer_width = 64']
+
+OPEN_ENTRIES = ['raw::Fst::<D>::new', 'inner_map::Map::<D>::new', 'inner_set::Set::<D>::new']
+ACCESSORS = ['raw::Fst::<D>::len', 'raw::Fst::<D>::is_empty', 'raw::Fst::<D>::size', 'raw::Fst::<D>::fst_type',
+             'raw::Fst::<D>::as_bytes', 'raw::Fst::<D>::as_inner', 'inner_map::Map::<D>::len', 'inner_map::Map::<D>::is_empty',
+             'inner_set::Set::<D>::len', 'inner_set::Set::<D>::is_empty', 'inner_map::Map::<D>::as_fst', 'inner_set::Set::<D>::as_fst']
+VERIFY = 'raw::Fst::<D>::verify'
+FST_ADT = 'raw::Fst'
 
 
 def user_unsafe(crate):
@@ -31,7 +47,6 @@ def r20_1(ctx):
     for kind, where, span in lib:
         ctx.violation(R, 'unsafe-%s:%s' % (kind, where), 'user-written unsafe %s in the library' % kind, fn=where, at=span)
     ctx.check(R, not lib, 'lib-unsafe-count', 'library contains unsafe code', detail='%d unsafe entries scanned, 0 user-written' % len(ctx.lib.unsafe))
-    # positive controls: the scan must see the unsafe code that does exist elsewhere
     fx = user_unsafe(ctx.fixture)
     kinds = {k for k, _, _ in fx}
     ctx.check(R, {'block', 'fn', 'impl'} <= kinds, 'control-fixture', 'the unsafe scan no longer sees the fixture\'s unsafe block/fn/impl: checker broken',
@@ -42,5 +57,157 @@ def r20_1(ctx):
                   detail='%d user-written unsafe items in fst-bin' % len(b), kind='undecided')
 
 
+def checksum_field(lib):
+    """(meta field of the FST type, checksum field of the meta type) found by type, not by name"""
+    fst = lib.adts.get(FST_ADT)
+    if not fst:
+        return None
+    for f in fst['variants'][0]['fields']:
+        meta = lib.adts.get(f['ty'].split('<')[0])
+        if meta and f['ty'].startswith('raw::'):
+            for g in meta['variants'][0]['fields']:
+                if g['ty'].startswith('std::option::Option<u32'):
+                    data = [h['name'] for h in fst['variants'][0]['fields'] if h['name'] != f['name']]
+                    return f['name'], g['name'], (data[0] if len(data) == 1 else None)
+    return None
+
+
+_REPORTED = set()
+
+
+def report(ctx, R, pv, fl, entry):
+    seen = set()
+    for x in fl:
+        k = x.key()
+        if k in seen:
+            continue
+        seen.add(k)
+        if k in _REPORTED:
+            continue       # same construct already reported through another entry point
+        _REPORTED.add(k)
+        ctx.violation(R, k, 'possible panic reachable from %s: %s [call chain: %s]' % (entry, x.what, ' -> '.join(x.chain)),
+                      fn=x.fn, at=x.at, kind='undecided' if x.kind == 'undecided' else 'violation')
+    return not seen
+
+
+def r20_2(ctx, state):
+    R = ctx.rule('R20.2', 'opening is total: every panic source reachable from Fst::new / Map::new / Set::new is discharged', floor=3)
+    lib = ctx.lib
+    fields = checksum_field(lib)
+    state['fields'] = fields
+    ks = []
+    for name in OPEN_ENTRIES:
+        f = lib.fn(name)
+        if f is None:
+            ctx.missing(R, 'anchor:' + name, 'entry point %s not found' % name)
+            continue
+        pv = Prover(lib)
+
+        def on_end(p, cs, fs, L, f=f):
+            if p.end != 'return' or name != OPEN_ENTRIES[0] or not fields:
+                return
+            rv = pv.inline(p.ret())
+            # Ok(Fst { meta: Meta { checksum: Some(..) } .. })
+            chk = None
+            for x in walk(rv):
+                if x[0] == 'agg' and x[1] == FST_ADT:
+                    fm = dict(x[2])
+                    meta = fm.get(fields[0])
+                    if meta is not None and meta[0] == 'agg':
+                        chk = dict(meta[2]).get(fields[1])
+                    data = fm.get(fields[2]) if fields[2] else None
+                    if chk is not None and chk[0] == 'agg' and chk[1].endswith('::Some') and data is not None:
+                        ln = L.slice_len(('call', 'std::convert::AsRef::as_ref', (data,), None))
+                        lo, hi = 0, 1 << 20
+                        rc = L.range_constraints(list(cs) + [ln])
+                        while lo < hi:
+                            mid = (lo + hi + 1) // 2
+                            if entails(list(cs) + rc, ln - Lin.const(mid)):
+                                lo = mid
+                            else:
+                                hi = mid - 1
+                        ks.append(lo)
+                    elif chk is not None and not (chk[0] == 'agg' and chk[1].endswith('::None')):
+                        ks.append(0)    # cannot tell whether a checksum is stored on this path
+        fl = analyse(pv, f, on_path_end=on_end)
+        ok = report(ctx, R, pv, fl, name)
+        ctx.count('paths_' + name, pv.paths)
+        ctx.count('panic_obligations', pv.obligations)
+        ctx.count('panic_obligations_discharged', pv.discharged)
+        state.setdefault('assumed_total', set()).update(pv.assumed_total)
+        state.setdefault('opaque', set()).update(pv.opaque_user)
+        if ok:
+            ctx.ok(R, 'entry:' + name, {'paths': pv.paths, 'panic_sources': pv.obligations, 'discharged': pv.discharged, 'sample': pv.samples[:3]}, fn=f)
+    state['K'] = min(ks) if ks else None
+    state['K_paths'] = len(ks)
+
+
+def r20_3(ctx, state):
+    R = ctx.rule('R20.3', 'verify() and the metadata accessors are total on anything that opened', floor=8)
+    lib = ctx.lib
+    fields = state.get('fields')
+    K = state.get('K')
+    # the invariant is only as good as the claim that `new` is the single constructor of the FST type
+    ctors = []
+    for f in lib.fn_list:
+        for b in f.normal_blocks():
+            for st in b['stmts']:
+                if st['k'] == 'assign' and isinstance(st['rv'].get('agg'), dict) and st['rv']['agg'].get('adt') == FST_ADT:
+                    ctors.append(f)
+    bad = [f for f in ctors if f.path != OPEN_ENTRIES[0] and not (f.from_expansion and f.impl and f.impl.get('trait_path') == 'std::clone::Clone')]
+    for f in bad:
+        ctx.violation(R, 'ctor:' + f.path, 'the FST type is constructed outside Fst::new, so "checksum stored => length >= %s" is not established' % K, fn=f)
+    ctx.check(R, bool(ctors) and not bad, 'single-constructor', 'no constructor of the FST type found', detail=[f.path for f in ctors])
+    ctx.check(R, K is not None and fields is not None and K >= 4, 'invariant',
+              'cannot derive "checksum stored => length >= 4" from the constructor (K=%s)' % K,
+              detail='on %d path(s) of Fst::new storing a checksum the guards entail len >= %s' % (state.get('K_paths', 0), K), kind='undecided' if K is None else 'violation')
+
+    def assume(fs, L):
+        out = []
+        if not fields or K is None:
+            return out
+        for e, v in fs.items():
+            if v == 1 and isinstance(e, tuple) and e[0] == 'discr':
+                x = e[1]
+                if x[0] == 'field' and x[2] == fields[1] and x[1][0] == 'field' and x[1][2] == fields[0] and fields[2]:
+                    y = x[1][1]
+                    ln = L.slice_len(('call', 'std::convert::AsRef::as_ref', (('field', y, fields[2]),), None))
+                    out.append(ln - Lin.const(K))
+        return out
+    for name in [VERIFY] + ACCESSORS:
+        f = lib.fn(name)
+        if f is None:
+            ctx.missing(R, 'anchor:' + name, 'function %s not found' % name)
+            continue
+        pv = Prover(lib, assume=assume)
+        fl = analyse(pv, f)
+        ok = report(ctx, R, pv, fl, name)
+        ctx.count('panic_obligations', pv.obligations)
+        ctx.count('panic_obligations_discharged', pv.discharged)
+        state.setdefault('assumed_total', set()).update(pv.assumed_total)
+        state.setdefault('opaque', set()).update(pv.opaque_user)
+        if ok:
+            ctx.ok(R, 'entry:' + name, {'paths': pv.paths, 'panic_sources': pv.obligations, 'discharged': pv.discharged, 'sample': pv.samples[:2]}, fn=f)
+
+
+def control(ctx):
+    """the prover must find the panic in a function that does have one (fixture)"""
+    R = ctx.rule('R20.2', 'opening is total: every panic source reachable from Fst::new / Map::new / Set::new is discharged')
+    f = ctx.fixture.fn('ctl_short_read')
+    if f is None:
+        ctx.undecided(R, 'control-prover', 'fixture function ctl_short_read missing')
+        return
+    pv = Prover(ctx.fixture)
+    fl = analyse(pv, f)
+    ctx.check(R, len(fl) >= 1, 'control-prover', 'the panic prover no longer reports the out-of-bounds read in the fixture: checker broken',
+              detail=[repr(x)[:200] for x in fl[:2]], kind='undecided')
+
+
 def run(ctx):
+    state = {}
     r20_1(ctx)
+    r20_2(ctx, state)
+    r20_3(ctx, state)
+    control(ctx)
+    ctx.notes.append({'assumed_total_callees': sorted(state.get('assumed_total', [])), 'opaque_user_calls': sorted(state.get('opaque', [])),
+                      'derived_invariant': 'checksum stored => len(data.as_ref()) >= %s' % state.get('K')})
